@@ -99,6 +99,16 @@ fn heap_replace<T: Copy, C: Comparator<T>>(keys: &mut [T], values: &mut [usize],
     values[node] = value;
 }
 
+
+#[cfg(feature = "verif")]
+pub fn verif_heap_replace_i64(keys: &mut [i64], values: &mut [usize], key: i64, value: usize, desc: bool) {
+    if desc {
+        heap_replace::<i64, CmpGreaterThan>(keys, values, key, value, 0)
+    } else {
+        heap_replace::<i64, CmpLessThan>(keys, values, key, value, 0)
+    }
+}
+
 #[cfg(test)]
 mod tests {
     use super::*;
